@@ -30,7 +30,7 @@ def _is_cls_expr(e: ast.AST, first: str) -> bool:
     return (first == "cls" and t == "cls") or t in ("type(self)", "self.__class__")
 
 
-def scan_function(q: str, fn: ast.FunctionDef, file: str, rid: str) -> List[R.Inst]:
+def scan_function(q: str, fn: ast.FunctionDef, file: str, rid: str, module_containers=frozenset()) -> List[R.Inst]:
     out: List[R.Inst] = []
     first = _first_param(fn)
     short = ".".join(q.split(".")[-2:])
@@ -122,6 +122,35 @@ def scan_function(q: str, fn: ast.FunctionDef, file: str, rid: str) -> List[R.In
                                       f"{short} keeps its results in self.{attr} under the key '{unparse(key)[:60]}', which leaves out the "
                                       f"parameter(s) {missing}: a call that differs only in {missing[0]} gets the result computed for the earlier "
                                       f"call", construct=f"{short}: self.{attr}[{unparse(key)[:50]}] omits {missing}"))
+        if isinstance(n, ast.Assign) and len(n.targets) == 1 and isinstance(n.targets[0], ast.Subscript) and \
+                isinstance(n.targets[0].value, ast.Name) and n.targets[0].value.id in module_containers:
+            g = n.targets[0].value.id
+            looked = any(isinstance(x, ast.Compare) and any(isinstance(o, (ast.In, ast.NotIn)) for o in x.ops) and
+                         any(isinstance(c, ast.Name) and c.id == g for c in x.comparators) for x in ast.walk(fn)) or any(
+                isinstance(x, ast.Subscript) and isinstance(x.value, ast.Name) and x.value.id == g and isinstance(x.ctx, ast.Load) for x in ast.walk(fn))
+            key = n.targets[0].slice
+            by_identity = any(isinstance(x, ast.Call) and isinstance(x.func, ast.Name) and x.func.id == "id" for x in ast.walk(key))
+            params = {a.arg for a in fn.args.args}
+            obj_key = isinstance(key, ast.Name) and key.id in params
+            if looked and not (by_identity or obj_key):
+                k2 = key
+                if isinstance(k2, ast.Name):
+                    ds = [a.value for a in ast.walk(fn) if isinstance(a, ast.Assign) and len(a.targets) == 1 and
+                          isinstance(a.targets[0], ast.Name) and a.targets[0].id == k2.id]
+                    k2 = ds[0] if len(ds) == 1 else k2
+                in_key = {x.id for x in ast.walk(k2) if isinstance(x, ast.Name)}
+                used = {x.id for x in ast.walk(fn) if isinstance(x, ast.Name) and isinstance(x.ctx, ast.Load)}
+                missing = [a.arg for a in fn.args.args + fn.args.kwonlyargs if a.arg not in ("self", "cls") and a.arg in used and a.arg not in in_key]
+                if missing:
+                    out.append(R.viol(rid, f"{short}:module-memo", file, n.lineno,
+                                      f"{short} keeps results in the module-level '{g}' under a key that leaves out the parameter(s) {missing}: "
+                                      f"a later call that differs only in {missing[0]} — in the same process — gets the earlier result",
+                                      construct=f"{short}: {g}[...] omits {missing}"))
+            if looked and (by_identity or obj_key):
+                out.append(R.viol(rid, f"{short}:module-memo", file, n.lineno,
+                                  f"{short} keeps results in the module-level '{g}' keyed on an object's identity ('{unparse(key)}'): charts are "
+                                  f"edited in place, so a second call with the same (edited) object gets the result computed before the "
+                                  f"edit — and a new object can reuse a freed id", construct=f"{short}: {g}[{unparse(key)}] memo"))
         elif isinstance(n, ast.Global):
             stores = {x.id for x in ast.walk(fn) if isinstance(x, ast.Name) and isinstance(x.ctx, ast.Store)}
             hit = sorted(set(n.names) & stores)
@@ -197,6 +226,18 @@ def copy_hook_insts(M, q: str, fn, rid: str) -> List[R.Inst]:
     return [R.ok(rid, f"{short}:copy-hook", file, node.lineno, idiom="every field that reaches the copy is deep-copied or immutable")]
 
 
+def _module_containers(M, mod: str):
+    """module-level names bound to a mutable container literal / constructor"""
+    out = set()
+    for st in M.mods[mod].tree.body:
+        tgt = st.targets[0] if isinstance(st, ast.Assign) and len(st.targets) == 1 else (st.target if isinstance(st, ast.AnnAssign) else None)
+        val = getattr(st, "value", None)
+        if isinstance(tgt, ast.Name) and val is not None and (isinstance(val, (ast.Dict, ast.List, ast.Set)) or (
+                isinstance(val, ast.Call) and isinstance(val.func, ast.Name) and val.func.id in ("dict", "list", "set", "defaultdict", "OrderedDict"))):
+            out.add(tgt.id)
+    return frozenset(out)
+
+
 def hidden_insts(ctx, rid: str, quals: Iterable[str]) -> List[R.Inst]:
     M = ctx.M
     out: List[R.Inst] = []
@@ -206,7 +247,8 @@ def hidden_insts(ctx, rid: str, quals: Iterable[str]) -> List[R.Inst]:
         if f is None or CTL in q:
             continue
         n += 1
-        found = scan_function(q, f.node, M.mods[f.mod].rel, rid) + copy_hook_insts(M, q, f, rid)
+        mc = _module_containers(M, f.mod)
+        found = scan_function(q, f.node, M.mods[f.mod].rel, rid, mc) + copy_hook_insts(M, q, f, rid)
         for i in found:
             i.reach = (q,) if not q.endswith(("__deepcopy__", "__copy__")) else tuple(
                 x for x in (q, f"{f.cls}.deepcopy", f"{f.cls}.__init__") if x) 
